@@ -24,7 +24,8 @@ EXPLANATION = (
     ' (R10) nothing may raise out of commit() after the commit point (shared with C04.R2: a commit that raised is not reflected); (R11) success means committed: every normal exit of Transaction.commit() passed a commit-point call or is the empty-transaction return.'
     ' (R12) who-may-delete census (shared with C09.R3): no unsanctioned deleter can remove files of an acknowledged commit; (R13) every handler an AmbiguousCommitError can flow into re-raises (an ambiguous commit is never retried).'
     ' R2 also requires every definition of the validated object to be a read under the lock (or None).'
-    " (R16) one lock per table: the lock provider's path is the backend's canonical resolution itself (C19.R10); (R17) a snapshot deletion repoints to the latest committed survivor (C09.R4).")
+    " (R16) one lock per table: the lock provider's path is the backend's canonical resolution itself (C19.R10); (R17) a snapshot deletion repoints to the latest committed survivor (C09.R4)."
+    ' R3 accepts attempt-invariant values computed once before the retry loop (derived from the queued operations only).')
 NOT_DECIDED = ("that flock / the S3 CAS lock actually excludes; the final-state-equals-serial-order statement "
                "over interleavings; linearity of the surviving chain at run time")
 
